@@ -34,7 +34,7 @@ Open Scope N_scope.
 
 (* ------------------------------------------------------------------ results *)
 
-Inductive eclass := ESetup | EOpen | EIo | EHashMismatch | EDecode | EEncode | ECommit | EReify.
+Inductive eclass := ESetup | EOpen | EIo | EShortWrite | EHashMismatch | EDecode | EEncode | ECommit | EReify.
 Inductive status := SOk | SErr (e : eclass) | SPanic.
 
 (* ------------------------------------------------------------------ CID links *)
@@ -154,6 +154,27 @@ Definition honest_read (sk : skind) (st : storage) (l : link) : ropen :=
 Inductive wact := WOk | WFail | WShort (n : N).   (* WShort n: accept n bytes, return (n, nil) *)
 Record wbeh := { w_open_err : bool; w_cap : option N; w_sched : list wact; w_commit_err : bool }.
 Definition honest_w := {| w_open_err := false; w_cap := None; w_sched := []; w_commit_err := false |}.
+
+(* Which error a failed write phase reports: the storage writer's own error (EIo), or
+   io.ErrShortWrite when the FIRST failing Write was a short count with a nil error (io.MultiWriter
+   turns that into ErrShortWrite).  Up to the first failure every Write of the encoder reaches the
+   writer, so this is a function of the writer's behaviour and the chunks alone. *)
+Fixpoint first_short (cap : option N) (sched : list wact) (used : N) (chunks : list bytes) : bool :=
+  match chunks with
+  | [] => false
+  | c :: r =>
+    let fits := match cap with None => true | Some k => used + lenN c <=? k end in
+    if negb fits then false else
+    match sched with
+    | WFail :: _ => false
+    | WShort n :: s' => if lenN c <=? n then first_short cap s' (used + lenN c) r else true
+    | WOk :: s' => first_short cap s' (used + lenN c) r
+    | [] => first_short cap [] (used + lenN c) r
+    end
+  end.
+
+Definition wfail_class (w : wbeh) (chunks : list bytes) : eclass :=
+  if first_short (w_cap w) (w_sched w) 0 chunks then EShortWrite else EIo.
 
 Definition prefixN (n : N) (l : bytes) : bytes :=
   match take n l with Some (p, _) => p | None => l end.
@@ -367,6 +388,13 @@ Section LinkSystem.
       end
     end.
 
+  (* LinkSystem.MustComputeLink / MustStore / MustLoad / MustFill: the same call, panicking when it
+     returns an error *)
+  Definition must_s (s : sout) : sout :=
+    match so_status s with SOk => s | _ => {| so_status := SPanic; so_link := None |} end.
+  Definition must_l (o : lout) : lout :=
+    match lo_status o with SOk => o | _ => lpanic end.
+
   (* LinkSystem.Store: the encoder writes into [latch](io.MultiWriter(writer, hasher)); when the
      encoder returned nil the latch's error (if the tree has the latch) is returned instead of
      committing; then BuildLink over what the hasher saw, then the committer *)
@@ -382,7 +410,7 @@ Section LinkSystem.
       | Some chunks =>
         let '(written, hashed, enc_err, latched) :=
           write_all latch (c_werr_ignored c) (w_cap w) (w_sched w) 0 false false chunks in
-        if enc_err || (latch && latched) then (sfail EIo, st) else
+        if enc_err || (latch && latched) then (sfail (wfail_class w chunks), st) else
         match build_link lp (hash (lp_mhtype lp) hashed) with
         | None => ({| so_status := SPanic; so_link := None |}, st)
         | Some l =>
